@@ -41,7 +41,7 @@ LEVELS = {
         {'name': 'L3-T3-M2-K2', 'templates': ['T3s'], 'M': 2, 'K': 2, 'guards': 1, 'budget_s': 60},
         {'name': 'L5-T6-M2-K3', 'templates': ['T6s', 'T6d'], 'M': 2, 'K': 3, 'guards': 0, 'namings': ['id'], 'budget_s': 40},
         {'name': 'L4-T5d-M2-K3', 'templates': ['T5d'], 'M': 2, 'K': 3, 'guards': 0, 'namings': ['id', 'rev'], 'nevents': 1,
-         'budget_s': 60},
+         'budget_s': 100},
     ],
     'thorough': [
         {'name': 'L1-N5-M2-K4', 'N': 5, 'M': 2, 'K': 4, 'guards': 1, 'budget_s': 900},
